@@ -6,7 +6,9 @@
 (* Request: parameter string (features=, paths=, M mappings, unknown       *)
 (* flags), the ordered list files_to_generate over a fixed universe of     *)
 (* files (A proto3; B proto3 importing A, other Go package; C proto3 in    *)
-(* A's Go package; D proto2; E proto3 unrelated).                          *)
+(* A's Go package; D proto2; E proto3 unrelated; F proto3 named by an      *)
+(* absolute path; G, H proto3 in A's Go package, both importing E, H       *)
+(* without using it, G with a descriptor above 8 KiB).                     *)
 (* Inside the generator two Go maps are ranged (the feature map and the    *)
 (* message index); their iteration order is the nondeterministic variable  *)
 (* `iter`.  Response: fatal (process exits non-zero: request-level error), *)
@@ -16,8 +18,8 @@
 (***************************************************************************)
 EXTENDS Naturals, Sequences, FiniteSets, TLC, Json, IOUtils
 
-Files == {"A", "B", "C", "D", "E"}
-Proto3 == {"A", "B", "C", "E"}
+Files == {"A", "B", "C", "D", "E", "F", "G", "H"}
+Proto3 == {"A", "B", "C", "E", "F", "G", "H"}
 FeatureParams == {"absent", "all", "fast+protoc", "protoc+fast", "fast", "protoc", "unknown", "fast+unknown", "unknown+fast", "empty",
                   "all+unknown", "unknown+all", "fast+fast", "all+fast", "Fast"}
 PathsParams == {"absent", "import", "source_relative", "bogus"}
